@@ -70,6 +70,22 @@ ROOT_ATTRS = {
 }
 
 
+# nested groups: outer group holding a shape and an inner group whose content vanishes late (or not)
+_R = '<rect x="10" y="12" width="30" height="20" fill="red"/>'
+_C = '<circle cx="30" cy="30" r="14" fill="green"/>'
+_INV = '<rect x="70" y="5" width="0" height="10" fill="red"/>'
+_TR = '<circle cx="80" cy="80" r="9" fill="red" opacity="0"/>'
+_IMG = '<image x="0" y="0" width="10" height="10" xlink:href="data:image/png;base64,AAAA"/>'
+NESTED = {}
+for _on, _oa in (("gop", ' opacity="0.5"'), ("gopxf", ' opacity=".25" transform="scale(.5)"'), ("g", "")):
+    for _in, _ia in (("gop", ' opacity="0.4"'), ("g", ""), ("gop1", ' opacity="1"')):
+        for _cn, _inner in (("vanish", _INV + _TR), ("unsup", _IMG + _INV), ("half", _C + _INV), ("full", _R + _C), ("empty", "")):
+            NESTED[f"N{_on}.{_in}.{_cn}.after"] = (f"<g{_oa}>{_R}<g{_ia}>{_inner}</g></g>", _cn == "unsup")
+            NESTED[f"N{_on}.{_in}.{_cn}.before"] = (f"<g{_oa}><g{_ia}>{_inner}</g>{_C}</g>", _cn == "unsup")
+            NESTED[f"N{_on}.{_in}.{_cn}.only"] = (f"<g{_oa}><g{_ia}>{_inner}</g></g>", _cn == "unsup")
+            NESTED[f"N{_on}.{_in}.{_cn}.deep"] = (f"<g{_oa}>{_R}<g{_ia}><g{_oa}>{_inner}</g>{_INV}</g></g>", _cn == "unsup")
+
+
 def kinds(scope):
     """top-level kind names for a scope"""
     base = list(LEAVES)
@@ -80,8 +96,8 @@ def kinds(scope):
     if scope == "base":
         return base
     if scope == "groups":
-        return groups + gclip
-    return base + groups + gclip
+        return groups + gclip + list(NESTED)
+    return base + groups + gclip + list(NESTED)
 
 
 def _leaf(name, i):
@@ -91,6 +107,8 @@ def _leaf(name, i):
 
 def snippet(kind, i):
     """-> (defs, body, unsupported)"""
+    if kind in NESTED:
+        return "", NESTED[kind][0], NESTED[kind][1]
     if ":" not in kind:
         return _leaf(kind, i)
     g, rest = kind.split(":")
@@ -112,6 +130,11 @@ def document(kinds_seq, root="none", drop_unsupported_nodes=False, viewbox="0 0 
     for i, k in enumerate(kinds_seq):
         d, b, u = snippet(k, i)
         if drop_unsupported_nodes and (u or _has_unsupported(k)):
+            if k in NESTED:
+                b = b.replace(_IMG, "")
+                defs += d
+                body += b
+                continue
             if ":" in k:
                 # rebuild the group without its unsupported leaves
                 g, rest = k.split(":")
@@ -129,6 +152,8 @@ def document(kinds_seq, root="none", drop_unsupported_nodes=False, viewbox="0 0 
 
 
 def _has_unsupported(kind):
+    if kind in NESTED:
+        return NESTED[kind][1]
     if ":" not in kind:
         return LEAVES[kind][2]
     return any(LEAVES[p][2] for p in kind.split(":")[1].split("+"))
